@@ -201,7 +201,7 @@ fn run_inner(h: &MarketHistory) -> Vec<Failure> {
 }
 
 fn random_market_history(rng: &mut Xoroshiro128StarStar, len: usize, toggles: bool) -> MarketHistory {
-    let ticks = vec![2u32, 1, 5];
+    let ticks = match rng.gen_range(0..4) { 0 => vec![4u32, 3, 8], 1 => vec![10u32, 1, 6], _ => vec![2u32, 1, 5] };
     let mut ops = vec![];
     let mut t = 0u64;
     for _ in 0..len {
